@@ -576,7 +576,15 @@ func GenScriptV(rng *rand.Rand, leader WCfg, p, s int, tab *Table, iters, opsPer
 	for i := 0; i < ncopy; i++ {
 		a := rng.IntN(x.U.R())
 		b := a + 1 + rng.IntN(x.U.R()-a)
-		e := Ev{"op": "copyspan", "a": a, "b": b}
+		warm := []int{}
+		if rng.IntN(2) == 0 {
+			for k := 0; k < x.U.R(); k++ {
+				if rng.IntN(3) == 0 {
+					warm = append(warm, k)
+				}
+			}
+		}
+		e := Ev{"op": "copyspan", "a": a, "b": b, "warm": warm}
 		script = append(script, e)
 		x.V = VirtP{}
 		x.Step(e)
